@@ -10,6 +10,12 @@ import (
 	"wa-lang.org/wa/internal/token"
 )
 
+// isLineComment reports whether text is a comment that runs to the end of the line:
+// `// ...` or the Chinese form `注: ...` (whose second byte is not '/').
+func isLineComment(text string) bool {
+	return strings.HasPrefix(text, "//") || strings.HasPrefix(text, token.K_注)
+}
+
 // commentsHaveNewline reports whether a list of comments belonging to
 // an *ast.CommentGroup contains newlines. Because the position information
 // may only be partially correct, we also have to read the comment text.
@@ -21,7 +27,7 @@ func (p *printer) commentsHaveNewline(list []*ast.Comment) bool {
 			// not all comments on the same line
 			return true
 		}
-		if t := c.Text; len(t) >= 2 && (t[1] == '/' || strings.Contains(t, "\n")) {
+		if t := c.Text; len(t) >= 2 && (isLineComment(t) || strings.Contains(t, "\n")) {
 			return true
 		}
 	}
@@ -89,7 +95,7 @@ func (p *printer) writeCommentPrefix(pos, next token.Position, prev *ast.Comment
 		return
 	}
 
-	if pos.Line == p.last.Line && (prev == nil || prev.Text[1] != '/') {
+	if pos.Line == p.last.Line && (prev == nil || !isLineComment(prev.Text)) {
 		// comment on the same line as last item:
 		// separate with at least one separator
 		hasSep := false
@@ -187,7 +193,7 @@ func (p *printer) writeCommentPrefix(pos, next token.Position, prev *ast.Comment
 
 		// make sure there is at least one line break
 		// if the previous comment was a line comment
-		if n == 0 && prev != nil && prev.Text[1] == '/' {
+		if n == 0 && prev != nil && isLineComment(prev.Text) {
 			n = 1
 		}
 
@@ -218,7 +224,7 @@ func (p *printer) writeComment(comment *ast.Comment) {
 		return
 	}
 	// shortcut common case of //-style comments
-	if text[0] == '/' && text[1] == '/' {
+	if isLineComment(text) {
 		p.writeString(pos, trimRight(text), true)
 		return
 	}
@@ -334,7 +340,7 @@ func (p *printer) intersperseComments(next token.Position, tok token.Token) (wro
 		}
 		// Ensure that there is a line break after a //-style comment,
 		// before EOF, and before a closing '}' unless explicitly disabled.
-		if last.Text[1] == '/' ||
+		if isLineComment(last.Text) ||
 			tok == token.EOF ||
 			tok == token.RBRACE && p.mode&noExtraLinebreak == 0 {
 			needsLinebreak = true
